@@ -258,6 +258,8 @@ def run(ctx) -> None:
     ctx.floor('O9', n9, 10, 'per-product terms of the cogeneration arms')
     from rules.c03 import check_sutra
     check_sutra(Renamed(ctx, {'T9': 'O9'}, key_filter=lambda k: True))
+    from rules.helper_contract import run_shared
+    run_shared(ctx, None, 'O10', 5)
     ctx.undecided('BHT vs depth/gradient through the layer search', 'Ramey temperature drop vs flow rate', 'NPV vs every cost input through the '
                   'correlations', 'BICYCLE arm monotonicity (mixed-sign tax terms)')
     ctx.exhaustive = True
